@@ -648,7 +648,9 @@ func sameStrings(a, b []string) bool {
 func reproduces(f ReplayFile, nr NativeResult) bool {
 	switch f.Kind {
 	case "assert":
-		return nr.Status == "fail label="+f.Label
+		// any failed assertion (or panic) of the same harness on the same input is a confirmed
+		// failure of the real code; the executor's predicted label need not be the first to trip
+		return strings.HasPrefix(nr.Status, "fail label=") || strings.HasPrefix(nr.Status, "panic msg=")
 	case "panic":
 		return strings.HasPrefix(nr.Status, "panic msg=") || strings.HasPrefix(nr.Status, "crash")
 	case "hang":
